@@ -500,7 +500,8 @@ pub async fn canon(w: &World) -> String {
     let reg: Vec<(u64, Vec<usize>)> = w.registered_in_epoch.borrow().iter().map(|(e, s)| (*e, s.iter().copied().collect())).collect();
     let mut buffered = w.raw_rows("select signed_entity_type_id, party_id from buffered_single_signature order by 1, 2");
     buffered.sort();
-    json!({"st": w.state(), "e": *tp.epoch, "i": tp.immutable_file_number, "certs": certs, "om": oms, "se": entities, "reg": reg, "buf": buffered, "restarts": w.restarts.min(1)}).to_string()
+    json!({"st": w.state(), "e": *tp.epoch, "i": tp.immutable_file_number, "certs": certs, "om": oms, "se": entities, "reg": reg, "buf": buffered, "restarts": w.restarts.min(1),
+           "pending_artifact": w.deps.signed_entity_type_lock.has_locked_entities().await}).to_string()
 }
 
 /// C15 store invariants: every certificate verifies with its chain; at most one artifact per signed
@@ -615,8 +616,8 @@ pub fn replay_interleaved(
     let rt = tokio::runtime::Builder::new_current_thread().enable_all().build().expect("tokio runtime");
     let hist_json = serde_json::to_value(history).unwrap();
     let res = rt.block_on(async {
-        let ctl = Ctl::install();
         let mut w = World::new(dir.clone(), 3, false).await;
+        let ctl = w.ctl.clone();
         let mut chk = Checker::new();
         let mut log = vec![];
         let mut violations = vec![];
@@ -693,8 +694,8 @@ pub fn record_points(scratch: &std::path::Path, history: &[Ev]) -> Vec<(usize, S
     let dir = fresh_dir(scratch);
     let rt = tokio::runtime::Builder::new_current_thread().enable_all().build().expect("tokio runtime");
     let res = rt.block_on(async {
-        let ctl = Ctl::install();
         let mut w = World::new(dir.clone(), 3, false).await;
+        let ctl = w.ctl.clone();
         let mut log = vec![];
         let mut out = vec![];
         for (i, ev) in history.iter().enumerate() {
